@@ -14,6 +14,7 @@
 -/
 import Stab.Model.Ready
 import Stab.Lemmas.C03
+import Stab.Lemmas.EngineClaim
 
 namespace Stab.Props.C03
 open Stab Stab.Ready Stab.Lemmas.C03
@@ -614,5 +615,51 @@ example : ∃ i : In, i.bypass = false ∧ i.ups ≠ [] ∧ (i.join = .nOfM ∧ 
   ⟨mk .nOfM 1 true none [u 0 .succeeded], rfl, by decide, ⟨rfl, by decide⟩, rfl⟩
 example : JoinMet (mk .nOfM 2 false none [u 0 .succeeded, u 1 .skipped, u 2 .running]) :=
   ready_sound _ (by decide)
+
+
+/-! ## Engine half: a stage is claimed only when `evaluate_readiness` says READY
+
+`Stab.Engine` models every handler as the list of effects it commits after reading state `s`.  An effect *claims*
+stage `i` when the stage is NOT_STARTED in `s` and RUNNING in the written row. -/
+
+section Engine
+open Stab.Engine
+
+/-- **Only StartStage(i) ever claims stage i, and only on READY** — for EVERY state `s` (so for every delivery
+    order, early / late / duplicated StartStage, redelivery, state left by a crash or a sweep) and every message.
+    Combined with `ready_sound`, the join condition over the durable upstream statuses holds at every claim, unless
+    the jump-bypass flag is set — and only `JumpToStage` sets that flag, only on its target (`jump_sets_bypass_only_on_target`). -/
+theorem claim_requires_ready (c : Cfg) (s : State) (row : Row) (i : Nat) (e : Eff)
+    (he : e ∈ (handle c s row).1.flatten) (hc : Engine.Claims s i e) :
+    ∃ r, row.msg = .startStage i r ∧ JoinMet (readyIn c s i (s.stage i).jumpBypass) := by
+  obtain ⟨r, hr, hready⟩ := only_startStage_claims c s row i e he hc
+  exact ⟨r, hr, ready_sound _ hready⟩
+
+/-- the only exception to the join condition is explicit: the bypass flag is set by a JumpToStage, on its target only -/
+theorem jump_sets_bypass_only_on_target (c : Cfg) (s : State) (row : Row) (j : Nat) (e : Eff)
+    (he : e ∈ (handle c s row).1.flatten)
+    (hb : ∃ new, e = .setStage j new ∧ (s.stage j).jumpBypass = false ∧ new.jumpBypass = true) :
+    ∃ a, row.msg = .jumpToStage a j :=
+  only_jump_sets_bypass c s row j e he hb
+
+/-- a stage whose AND join has a halted upstream is never claimed while that holds, unless it is a jump target -/
+theorem halted_upstream_blocks (c : Cfg) (s : State) (row : Row) (i u : Nat) (e : Eff)
+    (he : e ∈ (handle c s row).1.flatten) (hc : Engine.Claims s i e)
+    (hjoin : (c.stage i).join = JoinType.and) (hu : u ∈ c.reqs i) (hhalt : (s.stage u).status.isHalt = true) :
+    (s.stage i).jumpBypass = true := by
+  obtain ⟨r, _, hready⟩ := only_startStage_claims c s row i e he hc
+  cases hb : (s.stage i).jumpBypass with
+  | true => rfl
+  | false =>
+    exfalso
+    rw [hb] at hready
+    have hin : ({ ref := u, status := (s.stage u).status } : Ready.Up) ∈ (readyIn c s i false).ups := by
+      simp only [readyIn, List.mem_map]
+      exact ⟨u, hu, rfl⟩
+    have := halted_upstream_blocks_and (readyIn c s i false) (by simp [readyIn]) (by simp [readyIn, hjoin]) _ hin hhalt
+    rw [this.1] at hready
+    cases hready
+
+end Engine
 
 end Stab.Props.C03
